@@ -109,6 +109,8 @@ pub(crate) fn any_file_state(max: u32, has_entry: bool, is_dir: bool) -> FileSta
     kani::assume(first.is_some() || offset == 0);
     let data = if has_entry {
         let mut d = any_sfn_data();
+        // the attribute byte is concrete so that `is_dir()` folds (it decides whether a new cluster is zeroed)
+        d = crate::dir_entry::verif_kani::with_attrs(d, if is_dir { 0x10 } else { 0x20 });
         if is_dir {
             kani::assume(d.is_dir());
             // directories have no size field; the specification limits them to 65536 entries (2 MiB)
@@ -485,7 +487,7 @@ fn write_contract_dir_c1() {
 // @obl props=C02,C18 tier=quick fns=File::update_dir_entry_after_write,DirEntryEditor::set_modified,DirEntryEditor::set_size
 // @desc for EVERY provider DateTime and every file state: after a successful write the entry's modification stamp is the provider's value at 2 s resolution, size becomes max(size, offset) for files (directories have none), created / accessed / name / attributes / first cluster are untouched, and the entry is marked dirty whenever anything changed
 #[kani::proof]
-#[kani::unwind(4)]
+#[kani::unwind(13)]
 fn stamp_after_write() {
     let bpb = bpb_fat16();
     let max = bpb.total_clusters() + 2;
